@@ -3,6 +3,8 @@
 usage: confirm_seed.py <seed-out dir e.g. /tmp/seed-out/C07/m1> <worktree e.g. /tmp/seed/C07>   -> writes confirm.json into the seed dir"""
 import sys, os, re, json, subprocess, shutil, glob
 sd, wt = sys.argv[1], sys.argv[2]
+PKG = sys.argv[3] if len(sys.argv) > 3 and sys.argv[3] != "-" else None   # optional: package dir of the demo test
+TAGS = sys.argv[4] if len(sys.argv) > 4 else ""                               # optional: build tags for the demo
 env = dict(os.environ, GOFLAGS="-mod=mod", GOPROXY="off", GOSUMDB="off", GOTOOLCHAIN="local")
 def sh(cmd, cwd, timeout=1500):
     p = subprocess.run(cmd, cwd=cwd, env=env, shell=True, stdout=subprocess.PIPE, stderr=subprocess.STDOUT, timeout=timeout)
@@ -12,6 +14,7 @@ def clean():
 meta = json.load(open(os.path.join(sd, "meta.json")))
 tests = glob.glob(os.path.join(sd, "*_test.go"))
 res = {"seed": sd}
+res["base"] = sh("git rev-parse --short HEAD", wt)[1].strip()
 clean()
 if tests:
     demo = tests[0]
@@ -19,7 +22,7 @@ if tests:
     names = re.findall(r"^func (Test\w+)", src, re.M)
     m = re.search(r"((?:tars|contrib)/[A-Za-z0-9_/]+?)/?(?:[A-Za-z0-9_]*_test\.go|\s|`|\)|,|\.)", meta.get("demo", ""))
     pkgdir = m.group(1) if m else os.path.dirname(meta["files_touched"][0])
-    pkgdir = pkgdir.rstrip("/")
+    pkgdir = (PKG or pkgdir).rstrip("/")
     if not os.path.isdir(os.path.join(wt, pkgdir)):
         pkgdir = os.path.dirname(meta["files_touched"][0])
     res["demo_pkg"] = pkgdir
@@ -27,7 +30,8 @@ if tests:
         moddir = os.path.join(wt, "tars/tools/tars2go"); rel = "./" + os.path.relpath(pkgdir, "tars/tools/tars2go")
     else:
         moddir = wt; rel = "./" + pkgdir
-    run = "go test -vet=off -count=1 -run '^(%s)$' %s/" % ("|".join(names), rel)
+    run = "go test %s -vet=off -count=1 -run '^(%s)$' %s/" % (("-tags " + TAGS) if TAGS else "", "|".join(names), rel)
+    res["demo_cmd"] = run
     def demo_run():
         shutil.copy(demo, os.path.join(wt, pkgdir, os.path.basename(demo)))
         rc, out = sh(run, moddir, 600)
